@@ -25,7 +25,7 @@ import (
 )
 
 func main() {
-	hx.Main(map[string]func(*hx.Ctx){"c08": runC08, "c12": runC12, "c13": runC13, "c14": runC14, "c15": runC15, "c16": runC16})
+	hx.Main(map[string]func(*hx.Ctx){"c06": runC06, "c08": runC08, "c12": runC12, "c13": runC13, "c14": runC14, "c15": runC15, "c16": runC16})
 }
 
 type sys struct {
